@@ -300,6 +300,8 @@ def main():
         r = runner.run_fuzz("fuzz_extent", 6000000, a.seed, seeds=seeds, max_len=300)
         chk.extra["fuzz_extent"] = {"execs": r["execs"], "crashes": len(r["crashes"])}
         chk.seen(r["execs"])
+        for w in r["inconclusive"]:
+            chk.inconc(w)
         for sig, art, se in r["crashes"]:
             chk.violation("fuzz:" + sig, "libFuzzer fuzz_extent: input %s : %s" % (art[:160], se[-400:].replace("\n", " | ")), {"input": art})
     sys.exit(chk.finish())
